@@ -678,6 +678,83 @@ pub fn c04(p: &Params) -> Outcome {
             c04_frame(ctx, &mut rng, &f, thorough, &label);
         }
     });
+    // every possible wrong checksum (all 2^24 - 1 bursts confined to the trailer) of a few short frames, chosen
+    // where a digest implementation is most likely to slip: empty and one-byte payloads, an all-zero checksum, the
+    // register passing through zero at word-aligned offsets with zero bytes behind it, and ordinary payloads
+    let mut special: Vec<Vec<u8>> = vec![crc::frame(&[]), crc::frame(&[0x3E]), crc::frame(&[0x3E, 0xD0])];
+    {
+        let mut r = Rng::derive(seed, "C04.trailers", 0);
+        let n_extra = if thorough { 12 } else { 2 };
+        for k in 0..(6 + n_extra) {
+            let l = if k < 6 { 16usize } else { r.range(3, 40) as usize };
+            let mut payload = r.bytes(l);
+            if k < 6 {
+                // the checksum of everything before frame offset 3 + j lands at j..j+3; zero bytes follow
+                let j = [1usize, 5, 9, 2, 7, 13][k];
+                let mut pre = vec![0xD3u8, 0, l as u8];
+                pre.extend_from_slice(&payload[..j]);
+                let c = crc::crc24q(&pre);
+                payload[j] = (c >> 16) as u8;
+                payload[j + 1] = (c >> 8) as u8;
+                payload[j + 2] = c as u8;
+                for b in payload[j + 3..].iter_mut().take(if k % 2 == 0 { 1 } else { 4 }) {
+                    *b = 0;
+                }
+            }
+            special.push(crc::frame(&payload));
+        }
+    }
+    let chunks = 64usize;
+    let nspecial = special.len();
+    let trailers = par::run_queue(p.workers, nspecial * chunks, move |ji, ctx| {
+        let f = &special[ji / chunks];
+        let part = (ji % chunks) as u32;
+        let n = f.len();
+        let good = ((f[n - 3] as u32) << 16) | ((f[n - 2] as u32) << 8) | f[n - 1] as u32;
+        let mut g = f.clone();
+        let per = (1u32 << 24) / chunks as u32;
+        let r = guard(|| {
+            let mut bad: Option<(u32, u8)> = None;
+            for t in part * per..(part + 1) * per {
+                g[n - 3] = (t >> 16) as u8;
+                g[n - 2] = (t >> 8) as u8;
+                g[n - 1] = t as u8;
+                let a = match MessageFrame::new(&g) {
+                    Ok(_) => 1u8,
+                    Err(RtcmError::NotValid) => 0,
+                    Err(_) => 2,
+                };
+                if (t == good) != (a == 1) || (t != good && a != 0) {
+                    bad = Some((t, a));
+                    break;
+                }
+            }
+            bad
+        });
+        ctx.evals(per as u64);
+        ctx.nontrivial_enumerated(per as u64);
+        ctx.count_n("trailer_values_enumerated", per as u64);
+        if part == 0 {
+            ctx.count("frames_with_every_trailer_value_enumerated");
+        }
+        match r {
+            Err(p) => ctx.panic_violation("C04.no_panic", &p, "MessageFrame::new on a frame with a replaced checksum", json!({"kind":"damaged","hex":hex(f),"fault":"trailer enumeration"})),
+            Ok(Some((t, a))) => {
+                g[n - 3] = (t >> 16) as u8;
+                g[n - 2] = (t >> 8) as u8;
+                g[n - 1] = t as u8;
+                ctx.violation(
+                    format!("C04.rejected|every_trailer_value|{}", if a == 1 { "accepted" } else if t == good { "intact_frame_rejected" } else { "wrong_error" }),
+                    "C04.rejected",
+                    format!("frame {} with its checksum {:06x} replaced by {:06x}: MessageFrame::new gave {}", hex_short(f), good, t, ["NotValid", "ACCEPTED", "another error"][a as usize]),
+                    json!({"kind":"damaged","hex":hex(&g),"fault":{"trailer_replaced_by": format!("{:06x}", t)}}),
+                );
+            }
+            Ok(None) => {}
+        }
+    });
+    total.merge(trailers);
+    total.exhaustive_parts.push("every one of the 2^24 checksum values of the short special frames (frames_with_every_trailer_value_enumerated)".into());
     total.exhaustive_parts.push("single-bit faults: every position in reserved bits, payload and checksum of every frame used".into());
     total.exhaustive_parts.push("bit pairs: all pairs for frames <= 64 bytes".into());
     if total.get("single_bit") == 0 || total.get("burst_le_24") == 0 {
@@ -685,7 +762,7 @@ pub fn c04(p: &Params) -> Outcome {
     }
     Outcome {
         ctx: total,
-        rule: "fault injection on valid frames (synthetic payload lengths and library-generated frames of message types): single bits, bit pairs, odd-weight patterns, bursts 2..=24, the damaged frame after an intact copy, runs of two and three damaged copies in one buffer (all ordered pairs of checksum-bit errors); evaluations = damaged frames presented; every damaged frame is non-trivial; distinct by hash of the damaged frame".into(),
+        rule: "fault injection on valid frames (synthetic payload lengths and library-generated frames of message types): single bits, bit pairs, odd-weight patterns, bursts 2..=24, the damaged frame after an intact copy, runs of two and three damaged copies in one buffer (all ordered pairs of checksum-bit errors), every one of the 2^24 checksum values of a few short frames (zero checksum, register zero at aligned offsets, empty payload); evaluations = damaged frames presented; every damaged frame is non-trivial; distinct by hash of the damaged frame".into(),
         exhaustive: false,
         extra: json!({}),
     }
